@@ -300,13 +300,15 @@ fn word_hash(w: &str, utf8: bool) -> u64 {
 pub struct E1Local {
     pub words: u64,
     pub d8: u64,
+    pub d8_labels: u64,
+    pub d15: u64,
     pub nonground: u64,
     pub outcomes: HashSet<u64>,
 }
 
 impl E1Local {
     pub fn new() -> E1Local {
-        E1Local { words: 0, d8: 0, nonground: 0, outcomes: HashSet::new() }
+        E1Local { words: 0, d8: 0, d8_labels: 0, d15: 0, nonground: 0, outcomes: HashSet::new() }
     }
 }
 
@@ -319,7 +321,8 @@ fn ev_hash(ev: &[Op]) -> u64 {
 /// Check one word (with the probe suffix) in one parser mode.
 pub fn c03_word(c: &Collector, w: &str, utf8: bool, l: &mut E1Local, engine: &str) {
     let full = format!("{}{}", w, PROBE);
-    let (exp, _g, d8) = recognise(&full, utf8);
+    let rec = crate::recog::recognise_full(&full, utf8);
+    let (exp, d8) = (rec.events.clone(), rec.d8);
     let (_, ground_after_word, _) = recognise(w, utf8);
     l.words += 1;
     if !ground_after_word {
@@ -350,11 +353,29 @@ pub fn c03_word(c: &Collector, w: &str, utf8: bool, l: &mut E1Local, engine: &st
                 l.d8 += 1;
                 return;
             }
-            let (e, o) = (normalise(&exp), normalise(&ev));
+            let (mut e, mut o) = (normalise(&exp), normalise(&ev));
+            if rec.d8_labels {
+                // an OSC string without `;`: the labels are open, everything else is compared
+                l.d8_labels += 1;
+                e = crate::recog::without_labels(&e);
+                o = crate::recog::without_labels(&o);
+            }
             if l.outcomes.len() < 1_000_000 {
                 l.outcomes.insert(ev_hash(&o));
             }
-            if e != o {
+            // D15: the other reading of an ESC inside an unfinished sequence
+            let alt_ok = match &rec.events_alt {
+                Some(a) => {
+                    l.d15 += 1;
+                    let mut a = normalise(a);
+                    if rec.d8_labels {
+                        a = crate::recog::without_labels(&a);
+                    }
+                    a == o
+                }
+                None => false,
+            };
+            if e != o && !alt_ok {
                 let i = e.iter().zip(o.iter()).position(|(a, b)| a != b).unwrap_or(e.len().min(o.len()));
                 c.violation(mk(
                     format!("feed|events-differ|{}", word_class(w)),
@@ -436,7 +457,7 @@ pub fn c03(c: &Collector, g: &mut Guard) {
     // partitions: first symbol (x second symbol for the thorough cube)
     let parts = na;
     let crashes = fork_map(c, parts, Duration::from_secs(crate::explore::sweep_timeout_s()), |part, cc| {
-        let mut l = E1Local { words: 0, d8: 0, nonground: 0, outcomes: HashSet::new() };
+        let mut l = E1Local { words: 0, d8: 0, d8_labels: 0, d15: 0, nonground: 0, outcomes: HashSet::new() };
         let first = a[part];
         // (a) full cube
         let mut stack: Vec<String> = vec![first.to_string()];
@@ -466,6 +487,8 @@ pub fn c03(c: &Collector, g: &mut Guard) {
         cc.add_transitions(l.words);
         cc.count("words", l.words);
         cc.count("words_d8_skipped", l.d8);
+        cc.count("words_d8_labels_only", l.d8_labels);
+        cc.count("words_d15_two_readings", l.d15);
         cc.count("words_ending_inside_a_sequence", l.nonground);
         cc.outcomes(&l.outcomes);
     });
@@ -475,7 +498,7 @@ pub fn c03(c: &Collector, g: &mut Guard) {
     // (c) unbounded-looking families enumerated completely within a bound
     let finals: Vec<char> = "@ABCDEFGHJKLMPXacdefghlmrz".chars().collect();
     let crashes = fork_map(c, finals.len(), Duration::from_secs(crate::explore::sweep_timeout_s()), |part, cc| {
-        let mut l = E1Local { words: 0, d8: 0, nonground: 0, outcomes: HashSet::new() };
+        let mut l = E1Local { words: 0, d8: 0, d8_labels: 0, d15: 0, nonground: 0, outcomes: HashSet::new() };
         let f = finals[part];
         // digit runs of every length 1..=40 x 3 digit patterns
         for len in 1..=40usize {
@@ -566,6 +589,8 @@ pub fn c03(c: &Collector, g: &mut Guard) {
         cc.count("words", l.words);
         cc.count("macro_words", l.words);
         cc.count("words_d8_skipped", l.d8);
+        cc.count("words_d8_labels_only", l.d8_labels);
+        cc.count("words_d15_two_readings", l.d15);
         cc.outcomes(&l.outcomes);
     });
     for cr in crashes {
@@ -593,7 +618,7 @@ pub fn c03(c: &Collector, g: &mut Guard) {
                     r1.out.clear();
                     r1.feed(&b);
                     let e1b = r1.out.clone();
-                    if r1.d8 || r2.d8 {
+                    if r1.d8 || r2.d8 || r1.d8_labels || r2.d8_labels || r1.restart_seen || r2.restart_seen {
                         continue;
                     }
                     let mut exp = e1a;
@@ -697,6 +722,8 @@ pub fn c03(c: &Collector, g: &mut Guard) {
         cc.count("words", l.words);
         cc.count("odd_final_words", l.words);
         cc.count("words_d8_skipped", l.d8);
+        cc.count("words_d8_labels_only", l.d8_labels);
+        cc.count("words_d15_two_readings", l.d15);
         cc.outcomes(&l.outcomes);
     });
     for cr in crashes {
@@ -725,9 +752,9 @@ pub fn c03(c: &Collector, g: &mut Guard) {
     // OSC payload family (events only; the Screen-level effect is C19)
     let payload_syms: Vec<&str> = vec!["a", ";", "\\", "]", " ", "\u{e9}", "\x01", "\n", "\x1ba", "\x1b["];
     let plen = if c.thorough() { 5 } else { 3 };
-    let codes = ["0", "1", "2", "3", "9", "a", "l"];
+    let codes = ["0", "1", "2", "3", "9", "a", "l", "10", "133", ""];
     let crashes = fork_map(c, codes.len() * 2, Duration::from_secs(crate::explore::sweep_timeout_s()), |part, cc| {
-        let mut l = E1Local { words: 0, d8: 0, nonground: 0, outcomes: HashSet::new() };
+        let mut l = E1Local { words: 0, d8: 0, d8_labels: 0, d15: 0, nonground: 0, outcomes: HashSet::new() };
         let code = codes[part / 2];
         let intro = if part % 2 == 0 { "\x1b]" } else { "\u{9d}" };
         let mut payloads: Vec<String> = vec![String::new()];
@@ -746,12 +773,24 @@ pub fn c03(c: &Collector, g: &mut Guard) {
             for term in ["\x07", "\u{9c}", "\x1b\\"] {
                 let w = format!("{}{};{}{}", intro, code, p, term);
                 c03_word(cc, &w, true, &mut l, "E1.osc");
+                if w.chars().all(|ch| (ch as u32) < 0x100) && p.chars().count() <= 2 {
+                    c03_word(cc, &w, false, &mut l, "E1.osc");
+                }
+                // the same string without its `;` (D8, labels only: where it ends is still defined),
+                // and cut short right after the introducer / the command number
+                if p.chars().count() <= 2 && !p.contains(';') {
+                    for utf8 in [true, false] {
+                        c03_word(cc, &format!("{}{}{}{}", intro, code, p, term), utf8, &mut l, "E1.osc.no-separator");
+                    }
+                }
             }
         }
         cc.add_transitions(l.words);
         cc.count("words", l.words);
         cc.count("osc_words", l.words);
         cc.count("words_d8_skipped", l.d8);
+        cc.count("words_d8_labels_only", l.d8_labels);
+        cc.count("words_d15_two_readings", l.d15);
         cc.outcomes(&l.outcomes);
     });
     for cr in crashes {
@@ -776,7 +815,8 @@ pub fn c03(c: &Collector, g: &mut Guard) {
 pub fn c19(c: &Collector, g: &mut Guard) {
     let payload_syms: Vec<&str> = vec!["a", ";", "\\", "]", " ", "\u{e9}", "\u{30a2}", "\x01", "\n", "\x1ba", "\x1b["];
     let plen = if c.thorough() { 5 } else { 3 };
-    let codes = ["0", "1", "2", "3", "9", "a", "l"];
+    // the command number is everything before the first `;`: "10", "133", "22", "" are other codes
+    let codes = ["0", "1", "2", "3", "9", "a", "l", "10", "133", "22", "12", ""];
     let start = {
         let mut s = Screen::new(20, 2);
         s.set_title("T0");
@@ -854,6 +894,24 @@ pub fn c19(c: &Collector, g: &mut Guard) {
                     n += 1;
                     let r = screen_after_bytes(&start, chunks, true);
                     c19_verdict(cc, &base_script, Op::FeedBytes(chunks.clone(), true), r, &exp, &start_snap, code, ci > 0, &mut outcomes);
+                }
+                // 8-bit mode: the same string as Latin-1 characters / bytes (U+009D and U+009C are
+                // the single bytes 9D and 9C there)
+                if w.chars().all(|ch| (ch as u32) < 0x100) {
+                    n += 2;
+                    let r = screen_after_chars(&start, &[w.clone()], false);
+                    c19_verdict(cc, &base_script, Op::Feed(vec![w.clone()], false), r, &exp, &start_snap, code, false, &mut outcomes);
+                    let lat: Vec<u8> = w.chars().map(|ch| ch as u32 as u8).collect();
+                    let r = screen_after_bytes(&start, &[lat.clone()], false);
+                    c19_verdict(cc, &base_script, Op::FeedBytes(vec![lat.clone()], false), r, &exp, &start_snap, code, false, &mut outcomes);
+                    if p.chars().count() <= 1 {
+                        for cut in 1..lat.len() {
+                            n += 1;
+                            let chunks = vec![lat[..cut].to_vec(), lat[cut..].to_vec()];
+                            let r = screen_after_bytes(&start, &chunks, false);
+                            c19_verdict(cc, &base_script, Op::FeedBytes(chunks.clone(), false), r, &exp, &start_snap, code, true, &mut outcomes);
+                        }
+                    }
                 }
             }
         }
@@ -1030,6 +1088,8 @@ pub fn byte_alphabet() -> Vec<u8> {
     vec![
         0x41, 0x7f, 0x80, 0x8f, 0x90, 0x9f, 0xa0, 0xbf, 0xc0, 0xc1, 0xc2, 0xdf, 0xe0, 0xe1, 0xec, 0xed, 0xee, 0xef,
         0xf0, 0xf1, 0xf3, 0xf4, 0xf5, 0xff, 0xbb, 0x1b,
+        // FE and FF are one class for a UTF-8 decoder but not for a byte-order-mark sniffer
+        0xfe,
     ]
 }
 
@@ -1372,7 +1432,16 @@ pub fn c11(c: &Collector, g: &mut Guard) {
             cc.count("mode_switch_cases", l.n);
         } else {
             // BOM handling: at the start (D9) and in the middle (delivered)
-            for w in [vec![0xefu8, 0xbb, 0xbf, b'a'], vec![b'a', 0xef, 0xbb, 0xbf, b'b'], vec![0xef, 0xbb, 0xbf, 0xef, 0xbb, 0xbf, b'c'], vec![0xef, 0xbb, 0xbf]] {
+            for w in [
+                vec![0xefu8, 0xbb, 0xbf, b'a'],
+                vec![b'a', 0xef, 0xbb, 0xbf, b'b'],
+                vec![0xef, 0xbb, 0xbf, 0xef, 0xbb, 0xbf, b'c'],
+                vec![0xef, 0xbb, 0xbf],
+                // UTF-16 byte order marks are just two ill-formed bytes each
+                vec![0xff, 0xfe, 0x41, 0x00, 0x42, 0x00],
+                vec![0xfe, 0xff, 0x00, 0x41, 0x00, 0x42],
+                vec![0xff, 0xfe, 0x00, 0x00, 0x41],
+            ] {
                 for chunks in all_chunkings(&w) {
                     c11_case(cc, &chunks, true, &mut l, "E3.bom", "C11");
                 }
